@@ -486,8 +486,8 @@ fn analyze_receiver(sc: &Scenario, r: &SimResult) -> (Vec<Finding>, Facts) {
                 }
             }
         }
-    } else if !r.cap_hit && !r.worker_panicked {
-        // the upload failed
+    } else if !r.cap_hit {
+        // the upload failed (also when the worker thread died)
         match &r.file_after {
             None => {
                 if !sc.clean {
